@@ -176,8 +176,11 @@ def run_pair(component, args, timeout=1800):
     return res
 
 
-def run_model(lines, timeout=1800):
-    rc, out, err, secs = sh([GMODEL], inp="\n".join(lines) + "\n", timeout=timeout)
+def run_model(lines, timeout=150):
+    try:
+        rc, out, err, secs = sh([GMODEL], inp="\n".join(lines) + "\n", timeout=timeout)
+    except subprocess.TimeoutExpired:
+        return {"out": {}, "timeout": True}
     res = {}
     for line in out.split("\n"):
         parts = line.split(" ", 2)
